@@ -161,7 +161,7 @@ def gen_f1(rng, force=None):
         return seg
 
     items = segment()
-    shape = force.get("try", r.choice(("none", "oos-finish", "oos-wait", "nomatch-wait", "f4", "none")))
+    shape = force.get("try", r.choice(("none", "oos-finish", "oos-wait", "nomatch-wait", "f4", "none", "nomatch-lit", "nomatch-empty")))
     if shape == "oos-finish" and strs:
         body = segment()
         items.append({"t": "try", "kinds": ["oos"], "body": body, "handler": {"t": "finish", "code": "TOO"}})
@@ -171,6 +171,33 @@ def gen_f1(rng, force=None):
     elif shape == "nomatch-wait":
         body = segment()
         items.append({"t": "try", "kinds": ["nomatch"], "body": body, "handler": {"t": "wait", "hook": "bad", "term": r.choice(PUN)}})
+    elif shape in ("nomatch-lit", "nomatch-empty"):
+        # a handler that itself starts with a closed match (or is empty, so that what follows the try sees the
+        # offending byte): when that also rejects the byte, FAIL must still point at the byte, not behind it
+        first = lit()
+        first["ci"] = False
+        first["bin"] = False
+        if len(first["bytes"]) < 2:
+            first["bytes"].append(r.choice(LET))
+        body = [first] + actions(r.choice((0, 1))) + ([lit()] if r.random() < 0.5 else [])
+        # what the handler (or the statement after an empty handler) expects is, more often than not, a byte the
+        # try body also expects at that point: the hand-over then adds no new byte to look at
+        share = r.random() < 0.7
+        hl = lit()
+        hl["ci"] = False
+        hl["bin"] = False
+        fl = lit()
+        fl["ci"] = False
+        fl["bin"] = False
+        if share:
+            hl["bytes"][0] = first["bytes"][r.choice((0, 1))]
+            fl["bytes"][0] = first["bytes"][r.choice((0, 1))]
+        if shape == "nomatch-lit":
+            h = {"t": "lit", "hook": r.choice((None, "bad")), "item": hl}
+        else:
+            h = {"t": "empty"}
+        items.append({"t": "try", "kinds": ["nomatch"], "body": body, "handler": h})
+        items.append(fl)
     elif shape == "f4":
         head = lit()
         w = {"t": "wait", "bytes": [r.choice(PUN)] + [r.choice(LET) for _ in range(r.choice((0, 1, 2)))]}
@@ -275,6 +302,12 @@ def render_item(it, ind):
         h = it["handler"]
         if h["t"] == "finish":
             L.append(p + "    finish %s;" % h["code"])
+        elif h["t"] == "lit":
+            if h.get("hook"):
+                L.append(p + "    %s();" % h["hook"])
+            L += render_item(h["item"], ind + 1)
+        elif h["t"] == "empty":
+            pass
         else:
             if h.get("hook"):
                 L.append(p + "    %s();" % h["hook"])
@@ -507,8 +540,13 @@ class F1Model:
                 h = it["handler"]
                 if h["t"] == "finish":
                     raise Term("FINISH_" + h["code"])
+                if h["t"] == "empty":
+                    return
                 if h.get("hook"):
                     self.emit("hook", h["hook"])
+                if h["t"] == "lit":
+                    self.run_item(h["item"])     # a mismatch here has no handler left: FAIL on that byte
+                    return
                 self.wait([h["term"]])
         else:
             raise ValueError(t)
@@ -1319,8 +1357,9 @@ def family_tasks(prop, tier, root):
             f["eof"] = True
         if prop == "C03":
             f["storage"] = idx % 4
-        if fam == "F5":
-            # the append, the yield and the overflow redirect only share a transition after short-circuiting
+        if fam in ("F5", "F1", "F3"):
+            # most optimiser-dependent behaviour (actions and yields sharing a transition, short-circuited
+            # fall-throughs, eliminated proxy states) only exists at -O3: weight it
             f["O"] = ro.choice((3, 3, 3, 2, 1, 0))
         argv = workload.sample_argv(ro, need=spec["need"], force=f)
         canaries = {o["name"]: 90 for o in spec.get("outputs", []) if o.get("canary")}
